@@ -25,6 +25,7 @@ theorem PInv.congrReg {w w' : World} (hp : PInv ex fr w) (hc : SameReg w w')
     (hfb : ∀ x, ¬ ex x → (w'.proc x).blocked ≠ fr x → procAw w x = [] ∧ evAw w x = [])
     (hw : w'.evWaiters = w.evWaiters) (hev : w'.ev = w.ev) : PInv ex fr w' where
   ei := by rw [hev]; exact hp.ei
+  sb := by rw [hev]; exact hp.sb
   es := by rw [hev, hw]; exact hp.es
   oh := by
     intro e he ha p hb hx h hh
